@@ -103,8 +103,29 @@ def jde_of(y):
     return 2451545.0 + (y - 2000.0) * 365.25
 
 
+def _warm(e):
+    for f in (lambda: Sun.geometric_geocentric_position(e, True), lambda: Sun.geometric_geocentric_position(e, False),
+              lambda: Sun.apparent_geocentric_position(e, True), lambda: Sun.apparent_geocentric_position(e, False),
+              lambda: Earth.geometric_heliocentric_position(e, True), lambda: Earth.geometric_heliocentric_position(e, False),
+              lambda: Earth.apparent_heliocentric_position(e, True), lambda: Sun.rectangular_coordinates_mean_equinox(e),
+              lambda: Sun.true_longitude_coarse(e)):
+        try:
+            f()
+        except Exception:
+            pass
+
+
 def ep(y):
-    return Epoch(jde_of(y))
+    """The Epoch of year y.  In one case out of four it is a *recycled* object: it has already been
+    passed, holding another date, to the Sun/Earth position functions and was then moved to the
+    wanted date with set() - the way a caller stepping through an ephemeris re-uses one Epoch."""
+    j = jde_of(y)
+    if int(abs(y) * 1009.0) % 4 == 0:
+        e = Epoch(j - 4321.75 if j > 1.0e6 else j + 4321.75)
+        _warm(e)
+        e.set(j)
+        return e
+    return Epoch(j)
 
 
 def _angles(t, n, site):
@@ -462,6 +483,14 @@ def date_args(case):
         args = ((y, m, d),)
     elif form == "list":
         args = ([y, m, d],)
+    elif form == "datetime_time":
+        # a time of day: check_input_date keeps the calendar date only; nothing is asserted about
+        # that here, only that the three functions treat the same argument alike (the sum)
+        args = (datetime.datetime(y, m, dd, 23, 30, 17),)
+    elif form == "args6":
+        args = (y, m, dd, 23, 30, 17.0)
+    elif form == "tuple6":
+        args = ((y, m, dd, 23, 30, 17.0),)
     elif form == "date":
         args = (datetime.date(y, m, dd),)
     elif form == "datetime":
@@ -478,7 +507,7 @@ def angle_value(a, site):
 
 
 def same_as_epoch_form(fn, site, args, jde, val, case):
-    if case["form"] == "epoch":
+    if case["form"] in ("epoch", "datetime_time", "args6", "tuple6"):
         return
     ref = angle_value(fn(Epoch(jde)), site)
     if not abs(val - ref) <= TOL_FORM:
@@ -670,8 +699,10 @@ def ymd(ylo, yhi, for_datetime):
 def date_cases(ylo, yhi):
     plain = st.builds(lambda d, f: {"ymd": d, "form": f}, ymd(ylo, yhi, False),
                       st.sampled_from(["epoch", "epoch_reused", "args", "tuple", "list"]))
-    dt = st.builds(lambda d, f: {"ymd": d, "form": f}, ymd(max(ylo, 1), min(yhi, 9999), True),
-                   st.sampled_from(["date", "datetime"]))
+    dt = st.one_of(st.builds(lambda d, f: {"ymd": d, "form": f}, ymd(max(ylo, 1), min(yhi, 9999), True),
+                             st.sampled_from(["date", "datetime", "datetime_time"])),
+                   st.builds(lambda d, f: {"ymd": d, "form": f}, ymd(ylo, yhi, True),
+                             st.sampled_from(["args6", "tuple6"])))
     return st.one_of(plain, plain, dt)
 
 
